@@ -766,10 +766,17 @@ func (fe *FnEnc) externModel(key string, f *ssa.Function, args []Val, rt types.T
 	case "bytes.Equal":
 		a, b := fe.valTerm(args[0]), fe.valTerm(args[1])
 		es := s.sortOf(types.Typ[types.Uint8])
-		// equal iff same length and same elements in range
+		// equal iff same length and same elements in range. Stated as two implications so that the only
+		// quantifier is one that is assumed (E-matching copes with that; an equivalence with a quantifier
+		// inside needs the quantifier in both polarities): the "unequal" direction names a witness position.
 		r := s.fresh("beq", "Bool")
-		s.assert(fmt.Sprintf("(= %s (and (= %s %s) (forall ((k Int)) (=> (and (<= 0 k) (< k %s)) (= (select %s k) (select %s k))))))",
-			r, s.seqLen(es, a), s.seqLen(es, b), s.seqLen(es, a), s.seqArr(es, a), s.seqArr(es, b)))
+		la, lb := s.seqLen(es, a), s.seqLen(es, b)
+		aa, ab := s.seqArr(es, a), s.seqArr(es, b)
+		s.assert(fmt.Sprintf("(=> %s (and (= %s %s) (forall ((k Int)) (! (=> (and (<= 0 k) (< k %s)) (= (select %s k) (select %s k))) :pattern ((select %s k)) :pattern ((select %s k))))))",
+			r, la, lb, la, aa, ab, aa, ab))
+		w := s.fresh("beqw", "Int")
+		s.assert(fmt.Sprintf("(=> (not %s) (or (not (= %s %s)) (and (<= 0 %s) (< %s %s) (not (= (select %s %s) (select %s %s))))))",
+			r, la, lb, w, w, la, aa, w, ab, w))
 		return Val{T: rt, Term: r}, true
 	}
 	return Val{}, false
